@@ -139,18 +139,23 @@ static void draw(int mode, int x, int y, int w, int h, uint64_t seed) {
   rfbMarkRectAsModified(scr, x, y, x + w, y + h);
 }
 
-/* region made of the "black" 1x1 cells of a checkerboard over [x,x+w) x [y,y+h) (cell size cs) */
+/* region made of the "black" cells of a checkerboard over [x,x+w) x [y,y+h) (cell size cs);
+ * built row by row so that tens of thousands of cells stay cheap */
 static sraRegionPtr checker(int x, int y, int w, int h, int cs) {
   sraRegionPtr r = sraRgnCreate(); int i, j;
-  for (j = 0; j * cs < h; j++)
+  if (cs < 1) cs = 1;
+  for (j = 0; j * cs < h; j++) {
+    sraRegionPtr row = sraRgnCreate();
     for (i = (j & 1); i * cs < w; i += 2) {
       int x1 = x + i * cs, y1 = y + j * cs, x2 = x1 + cs, y2 = y1 + cs;
       sraRegionPtr t;
       if (x2 > x + w) x2 = x + w;
       if (y2 > y + h) y2 = y + h;
       t = sraRgnCreateRect(x1, y1, x2, y2);
-      sraRgnOr(r, t); sraRgnDestroy(t);
+      sraRgnOr(row, t); sraRgnDestroy(t);
     }
+    sraRgnOr(r, row); sraRgnDestroy(row);
+  }
   return r;
 }
 
